@@ -379,14 +379,37 @@ PROPS = {
         design_ref="DESIGN.md §5 C09",
         assumptions=[],
     ),
+    "C19": dict(
+        units=["fetch", "blockstore"],
+        level="proof",
+        level_text="SEQUENTIAL FRAGMENTS of the fetch queue (every clause as far as one task's code decides it). Deductive proof (Verus) over the real "
+                   "text of gossip::fetch::Queue::{request, accept_block}, of the three closures that run under the queue's watch lock (lifted "
+                   "mechanically), of the two async blocks inside accept_block's scope and of the get_block loop and per-call task of "
+                   "gossip::Network::run_stream (lifted mechanically as async fns). Decided for every queue content, block number and peer "
+                   "announcement: request() returns Ok only after completion was signalled on a channel it registered under the requested "
+                   "number and Err only when the caller's context was cancelled - after a dropped channel (peer failed / timed out / "
+                   "disconnected) it can do neither, and awaiting is possible only on a freshly registered channel, so the request is back in "
+                   "the queue; the insert closure adds exactly that entry, the cancel closure removes only it; accept_block returns (n, sender) only if "
+                   "n was the LOWEST key of a queue content it observed, THIS peer's announcement channel held a state containing n "
+                   "(BlockStoreState::contains, under contract in unit blockstore), and the entry was removed from the shared queue by this very "
+                   "call in the critical section that read it (one holder at a time); acceptors are woken whenever the lowest requested block "
+                   "changes; the per-call task signals completion only after a block with the REQUESTED number was accepted by queue_block.",
+        level_note="Not decided (A4): interleavings between requester, acceptors and per-call tasks (the spawned wait task is verified as a "
+                   "function and composed in line, R-spawn), oneshot drop semantics (a dropped sender wakes the requester with Disconnected), "
+                   "the fetcher task run_block_fetcher (one request per missing number, cancelled once queued). watch::send_if_modified runs "
+                   "its closure atomically; BTreeMap::first_key_value is the least key (A1). The facts registered/completed/taken/observed/announced/"
+                   "queued_for_storage are uninterpreted and produced only by the stubs named after them.",
+        technique="contract-based deductive verification (Verus on extracted real functions, lifted closures and lifted async blocks; ghost history predicates)",
+        design_ref="DESIGN.md §4 C19",
+        assumptions=[],
+    ),
 }
 
 NOT_APPLICABLE = {
     "C06": "liveness under a fairness assumption over whole histories; no per-call contract expresses 'eventually commits'",
     "C17": "every clause is about thread schedules and Arc drop order across tasks; Verus has no model of tokio tasks and Kani has no threads",
-    "C19": "loss / double hand-over arise only between the requester task and per-peer worker tasks (watch map + oneshot drops); the sequential fragments are three-line map updates whose contracts decide neither clause",
 }
 
-NOTES = "see DESIGN.md (status table in section 0). All 19 properties are either claimed (16) or listed as not applicable with the reason (C06, C17, C19). Exit codes of every check: 0 held, 1 violation (VIOLATION line), 2 undecided / tool limit (never an alarm)."
+NOTES = "see DESIGN.md (status table in section 0). All 19 properties are either claimed (17) or listed as not applicable with the reason (C06, C17). Exit codes of every check: 0 held, 1 violation (VIOLATION line), 2 undecided / tool limit (never an alarm)."
 HOOK_COMMITS = []
 
